@@ -155,6 +155,29 @@ func judgeReports(c battleCase, rec *hx.Rec) string {
 	if d := checkRecorder("after spawning"); d != "" {
 		return d
 	}
+	if (c.Cfg.M+c.Cfg.Cycles)%2 == 0 {
+		// the battle proper is the second round on this simulator and recorder
+		sim.Reset()
+		b.Reset()
+		for a := range acc {
+			acc[a] = []cellState{{gmars.CoreEmpty, -1}}
+		}
+		if d := checkRecorder("after Reset"); d != "" {
+			return d
+		}
+		for i, w := range c.Ws {
+			if err := sim.SpawnWarrior(i, gmars.Address(c.Offs[i])); err != nil {
+				return fmt.Sprintf("second SpawnWarrior(%d,%d): %v", i, c.Offs[i], err)
+			}
+			b.Spawn(i, c.Offs[i])
+			for k := range w.Code {
+				set((offMod(c.Offs[i], m)+k)%m, gmars.CoreWritten, i)
+			}
+		}
+		if d := checkRecorder("after Reset and spawning again"); d != "" {
+			return d
+		}
+	}
 	var sawInc, sawDec, sawWrite, sawDeath, sawDivZero bool
 	for cyc := 0; !b.Decided() && b.Living > 0; cyc++ {
 		l.tasks = l.tasks[:0]
